@@ -25,6 +25,12 @@ def run_check(prop, tier):
     info = dict(ctx.p.totals())
     info.update({"repo": ctx.p.repo, "resolved_intra_package_calls": ctx.r.stats()["intra_package_resolved"],
                  "api_reachable_functions": len(ctx.r.reachable)})
+    pg = ctx.p
+    info["normalisation_front_end"] = {
+        "reference": "sources the rule anchors were confirmed on (/verif/reference); consulted only to tell which names are new",
+        "names_mapped_back": list(getattr(pg.renames, "log", []))[:60], "constants_inlined": list(pg.inlined_constants)[:60],
+        "helpers_inlined": list(pg.unextracted[0])[:60], "reference_helpers_put_back": list(pg.reextracted)[:60],
+        "locals_written_out": list(pg.unhoisted)[:60], "stages_switched_off": list(pg.frontend_disabled)}
     f = ctx.floors()
     selfval = None
     if tier == "thorough":
